@@ -270,3 +270,31 @@ Proof.
   f_equal. unfold overwrite_prefix. rewrite skipn_all2; [apply app_nil_r|].
   rewrite vresize_length, (lpc_errors_len q signal e E). lia.
 Qed.
+
+(* ---------------- mid/side frame buffer ---------------- *)
+Theorem ms_buffer_stale_independent (b : fbuf) (n : nat) (pairs : list (Z * Z)) :
+  (1 <= fbs_size b)%nat -> length (fbs_samples b) = (2 * fbs_size b)%nat ->      (* a stereo buffer, whatever it holds *)
+  (length pairs <= n)%nat ->
+  let b' := fbs_fill_stereo pairs (fbs_resize n b) in
+  fbs_channel b' 0 = map fst pairs /\ fbs_channel b' 1 = map snd pairs.
+Proof.
+  intros Hs Hl Hp. cbv zeta.
+  assert (Hch : fbs_channels b = 2%nat).
+  { unfold fbs_channels. rewrite Hl. apply Nat.div_mul. lia. }
+  unfold fbs_resize. rewrite Hch. unfold fbs_fill_stereo. cbn [fbs_samples fbs_size fbs_filled].
+  set (S' := vresize (n * 2) 0%Z (fbs_samples b)).
+  assert (HS : length S' = (n * 2)%nat) by apply vresize_length.
+  set (m := firstn n S'). set (s := skipn n S').
+  assert (Hm : length m = n) by (unfold m; rewrite firstn_length; lia).
+  assert (Hsn : length s = n) by (unfold s; rewrite skipn_length; lia).
+  rewrite Hm, Hsn, Nat.min_id. replace (Nat.min (length pairs) n) with (length pairs) by lia.
+  rewrite firstn_all. unfold fbs_channel. cbn [fbs_samples fbs_size fbs_filled].
+  set (m' := overwrite_prefix (map fst pairs) m). set (s' := overwrite_prefix (map snd pairs) s).
+  assert (Hm' : length m' = n).
+  { unfold m', overwrite_prefix. rewrite app_length, skipn_length, !map_length. lia. }
+  split.
+  - cbn [Nat.mul skipn]. unfold m', overwrite_prefix. rewrite <- app_assoc.
+    rewrite <- (map_length fst pairs) at 1. rewrite firstn_app, Nat.sub_diag, firstn_all. cbn [firstn]. apply app_nil_r.
+  - rewrite Nat.mul_1_l. rewrite <- Hm' at 1. rewrite skipn_app, skipn_all, Nat.sub_diag. cbn [skipn app].
+    unfold s', overwrite_prefix. rewrite <- (map_length snd pairs) at 1. rewrite firstn_app, Nat.sub_diag, firstn_all. cbn [firstn]. apply app_nil_r.
+Qed.
